@@ -7,6 +7,7 @@ from ..astx import un, NoValue, walk_shallow, call_name, enclosing, kwarg
 from ..absint import Obj, Unk, PyFunc
 from ..core import rule, fixture_for, Unknown
 from ..optree import T
+from fractions import Fraction
 from ..symenv import tree_interp
 from .c11 import pow_table
 
@@ -189,6 +190,75 @@ def shirokov_degree(ctx):
             ctx.violation(c, f"in R({p_},{q_},{r_}) the iteration runs n = {got} steps ({un(expr)}), but the characteristic "
                              f"polynomial has degree 2^ceil(d/2) = {want}: the recursion stops before the determinant is "
                              f"reached and the result is not an inverse", assigns[0])
+
+
+@rule("C07.shirokov-recursion", props=["C07"], min_instances=3, mutants=[
+    ("coefficient c_k without the factor n/k", ("codegen", "        cs.append(s if (s := xi.e) == 0 else n * s / i)", "        cs.append(s if (s := xi.e) == 0 else n * s)")),
+    ("correction uses the wrong power", ("codegen", "            power_idx = i - j - 2", "            power_idx = i - j - 1 if i - j - 1 < len(powers) - 1 else i - j - 2")),
+    ("adjugate with the sign of c flipped", ("codegen", "        adj = xs[-1] - cs[-1]", "        adj = xs[-1] + cs[-1]")),
+    ("denominator is the previous scalar part", ("codegen", "    if symbolic:\n        return Fraction(adj, xi.e)\n    return alg.multivector({k: v / xi.e for k, v in adj.items()})", "    if symbolic:\n        return Fraction(adj, xs[-1].e)\n    return alg.multivector({k: v / xs[-1].e for k, v in adj.items()})")),
+])
+def shirokov_recursion(ctx):
+    """The iterative inverse is the Faddeev-LeVerrier / Shirokov recursion U_1 = x, c_k = (n/k) <U_k>_0,
+    U_{k+1} = x (U_k - c_k), result (U_{n-1} - c_{n-1}) / <U_n>_0 with n = 2^ceil(d/2): codegen_shirokov_inv is interpreted
+    on an opaque operand (free-algebra normal forms, scalar parts as opaque scalars) and compared with the recursion.
+    Trusted: U_n is a scalar (Cayley-Hamilton in the matrix representation) - the interpreter is told that the n-th U
+    is of grade 0 and no earlier one is."""
+    repo = ctx.repo
+    q = "codegen.codegen_shirokov_inv"
+    fn = ctx.func(q)
+    x = T.var("x")
+    for d in (2, 3, 6):
+        c = f"{q}#recursion,d={d}"
+        n = 2 ** ((d + 1) // 2)
+        it = tree_interp(repo, d)
+        seen = {"grades": 0}
+
+        def hook(v, name, seen=seen, n=n, d=d):
+            if isinstance(v, T) and name == "grades":
+                seen["grades"] += 1
+                return (0,) if seen["grades"] == n else tuple(range(d + 1))
+            return NotImplemented
+        it.attr_hook = hook
+        it.t_truth = lambda t: bool(t.terms)
+        it.t_generic = True
+        try:
+            out = it.run(q, [x], {"symbolic": True})
+        except NoValue as exc:
+            raise Unknown(c, str(exc), fn)
+        if out[0] == "raise":
+            ctx.violation(c, f"the iterative inverse raises {out[1]} in {d} dimensions", fn)
+            continue
+        try:
+            num, denom = out[1]
+        except Exception:
+            raise Unknown(c, f"returns {out[1]!r}", fn)
+        if not isinstance(num, T) or not isinstance(denom, T):
+            raise Unknown(c, f"returns numerator {num!r}, denominator {denom!r}", fn)
+
+        def S(t):
+            return T.scalar(("coef", t.key(), "e"))
+        powers = [x]
+        for _ in range(n - 1):
+            powers.append(powers[-1].gp(x))
+        U, cs = [], []
+        for k in range(1, n + 1):
+            u = powers[k - 1]
+            for j in range(1, k):
+                u = u.sub(powers[k - j - 1].gp(cs[j - 1]))
+            U.append(u)
+            cs.append(S(u).scale(Fraction(n, k)))
+        want_num = U[n - 2].sub(cs[n - 2]) if n > 1 else T.num(1)
+        want_den = S(U[n - 1])
+        problems = []
+        if num != want_num:
+            problems.append(f"numerator [{repr(num)[:160]}] is not U_{n - 1} - c_{n - 1} = [{repr(want_num)[:160]}]")
+        if denom != want_den:
+            problems.append(f"denominator [{repr(denom)[:120]}] is not the scalar part of U_{n}")
+        if problems:
+            ctx.violation(c, f"d={d}, n={n}: " + "; ".join(problems) + " (Shirokov: U_1 = x, c_k = n/k <U_k>_0, U_{k+1} = x (U_k - c_k))", fn)
+        else:
+            ctx.ok(c, fn, steps=n)
 
 
 @rule("C07.div-order", props=["C07"], min_instances=3, mutants=[
